@@ -218,3 +218,55 @@ OUTSIDE = ['argparse usage errors (exit 2 by design)',
            'combinations of several odd features in one tree']
 STUBS = ['ModelFS seams', 'gemato.cli.logging -> null logger (message formatting would '
          'realise symbolic values)']
+
+
+def validate(seed, tier):
+    """real filesystem, real CLI in a fresh interpreter: odd Manifest *texts* (the model runs
+    use entry objects) - duplicate IGNORE, unknown hash, NUL / out-of-range / escaped-slash
+    paths, entry naming a directory, entry under a file, unregistered sub-Manifest, junk -
+    through verify, update (tree and sub-directory) and create with every profile: exit
+    status 0/1/2 and no traceback"""
+    from vf.realcheck import RealTree, gemato
+    agree, details, errs = 0, [], []
+    odd = {
+        'dup_ignore': 'DATA a 2 MD5 x\nIGNORE ig\nIGNORE ig\n',
+        'unknown_hash': 'DATA a 2 FOO f00\n',
+        'nul_path': 'DATA n\\x00ul 1 MD5 x\nDATA a 2 MD5 x\n',
+        'out_of_range': 'DATA a\\U00110000 1\n',
+        'escaped_slash': 'DATA \\x2Fabs 1\n',
+        'entry_is_dir': 'DATA sub 1 MD5 x\n',
+        'entry_under_file': 'DATA a/below 1 MD5 x\n',
+        'junk': 'FOO bar\n',
+        'negative_size': 'DATA a -1\n',
+        'dist_slash': 'DIST a/b 1\n',
+        'unregistered_sub': 'DATA a 2 MD5 x\n',
+        'empty': '',
+    }
+    for name, text in odd.items():
+        for cmd in (('verify',), ('verify', '-k'), ('update', '-H', 'MD5'),
+                    ('update', '-H', 'MD5', 'SUB'), ('create', '-p', 'old-ebuild'),
+                    ('create', '-p', 'ebuild'), ('create', '-H', 'MD5')):
+            t = RealTree()
+            try:
+                t.write('a', b'aa')
+                t.write('sub/c', b'ccc')
+                t.write('ig/x', b'x')
+                t.write('sub/Manifest', b'DATA c 3 MD5 zz\n')
+                t.write('Manifest', text.encode())
+                args = [a if a != 'SUB' else t.root + '/sub' for a in cmd]
+                if 'SUB' not in cmd:
+                    args.append(t.root)
+                rc, out = gemato(*args)
+                last = ([ln for ln in out.splitlines() if ln.strip()] or [''])[-1]
+                genuine_os = last.startswith(('NotADirectoryError', 'OSError', 'IsADirectoryError',
+                                              'PermissionError', 'FileNotFoundError'))
+                if 'Traceback' in out and genuine_os:
+                    agree += 1          # a genuine OS error may escape (the statement says so)
+                elif rc not in (0, 1, 2) or 'Traceback' in out:
+                    errs.append(f'{name} / {" ".join(cmd)}: rc={rc} {out[-200:]}')
+                else:
+                    agree += 1
+            finally:
+                t.close()
+    details.append({'odd_texts': sorted(odd), 'commands': 7})
+    return agree, details, errs
